@@ -25,17 +25,18 @@ Toks == << <<"int", 3>>, <<"g", 1>>, <<";", 1>>, <<"export", 6>>, <<"function", 
            <<"++", 2>>, <<"xyz", 3>>, <<";", 1>>, <<"xyz", 3>>, <<"--", 2>>, <<";", 1>>,
            <<"float", 5>>, <<"aa", 2>>, <<"=", 1>>, <<"b", 1>>, <<";", 1>>,
            <<"float", 5>>, <<"hf", 2>>, <<"=", 1>>, <<"0.5f", 4>>, <<";", 1>>,
+           <<"float2", 6>>, <<"pv", 2>>, <<";", 1>>, <<"hf", 2>>, <<"=", 1>>, <<"pv", 2>>, <<".", 1>>, <<"y", 1>>, <<";", 1>>,
            <<"xyz", 3>>, <<"+=", 2>>, <<"aa", 2>>, <<"*", 1>>, <<"g", 1>>, <<";", 1>>, <<"return", 6>>, <<"xyz", 3>>,
            <<";", 1>>, <<"}", 1>>, <<"int", 3>>, <<"h", 1>>, <<";", 1>> >>
 Lens == [i \in 1..Len(Toks) |-> Toks[i][2]]
 \* identifiers that carry a location, by token index
 Located == [gdecl |-> 2, pa |-> 9, pb |-> 12, xdecl |-> 18, ause |-> 20, guse |-> 22, wcondx |-> 26, wconda |-> 28, wasgx |-> 31, wrhsx |-> 33, wrhsh |-> 35,
-            incx |-> 39, decx |-> 41, aredecl |-> 45, buse |-> 47, hfdecl |-> 50, hflit |-> 52, casgx |-> 54, casga |-> 56, casgg |-> 58, xuse |-> 61, hdecl |-> 65]
+            incx |-> 39, decx |-> 41, aredecl |-> 45, buse |-> 47, hfdecl |-> 50, hflit |-> 52, pvdecl |-> 55, hfuse |-> 57, pvuse |-> 59, casgx |-> 63, casga |-> 65, casgg |-> 67, xuse |-> 70, hdecl |-> 74]
 \* composite constructs: the located tokens they contain (a while loop's condition precedes its body in the text; the
 \* global h is written after the function)
 Composites == [sum |-> {20, 22}, xdeclstmt |-> {18, 20, 22}, whilecond |-> {26, 28}, whilestmt |-> {26, 28, 31, 33, 35}, aredeclstmt |-> {45, 47},
-               hfdeclstmt |-> {50, 52}, casgprod |-> {56, 58}, casgstmt |-> {54, 56, 58},
-               retstmt |-> {61}, function |-> {9, 12, 18, 20, 22, 26, 28, 31, 33, 35, 39, 41, 45, 47, 50, 52, 54, 56, 58, 61}, module |-> {2, 9, 61, 65}]
+               hfdeclstmt |-> {50, 52}, memberexpr |-> {59, 61}, masgstmt |-> {57, 59, 61}, casgprod |-> {65, 67}, casgstmt |-> {63, 65, 67},
+               retstmt |-> {70}, function |-> {9, 12, 18, 20, 22, 26, 28, 31, 33, 35, 39, 41, 45, 47, 50, 52, 55, 57, 59, 61, 63, 65, 67, 70}, module |-> {2, 9, 70, 74}]
 S1 == <<"s">>
 Seps == {<<"s">>, <<"n">>, <<"n", "n">>, <<"s", "n", "s", "s">>, <<"s", "s", "s">>}
 Lead == {<<>>, <<"n">>, <<"s", "s">>, <<"n", "s">>, <<"b">>, <<"b", "n">>}   \* white space before the first token; "b" = a byte-order mark (one character)
